@@ -293,4 +293,7 @@ def nticks (ords : List Nat) : List NActor := ords.flatMap ntick
 def nunread (n : NSt) (r : Rpc) : Bytes :=
   n.nb ++ n.ch.q.flatten ++ n.ch.pending.flatten ++ (r.writes.map (·.2.flatten)).flatten
 
+/-- bytes `Driver.read` holds or can still be given -/
+def nbudget (n : NSt) : Nat := n.ch.left + n.nb.length + n.ch.q.flatten.length
+
 end Scrapli.Loss
